@@ -25,6 +25,11 @@ pub enum Content {
     Planted { base: Box<Content>, n: usize, mlen: usize, seed: u64 },
     /// the bytes of `base` repeated cyclically up to `len` (a short unit tiled over a block: few literals, all the rest matches)
     Tile { base: Box<Content>, len: usize },
+    /// `base` with every `every`-th byte replaced by one of `bytes` (cyclically): a copy of earlier material in which
+    /// only the replaced bytes cannot be matched, so that a block's literals are drawn from a tiny alphabet
+    Holes { base: Box<Content>, every: usize, bytes: Vec<u8> },
+    /// uniform over the `n` consecutive byte values starting at `lo` (wrapping)
+    Range { lo: u8, n: u16, len: usize, seed: u64 },
 }
 
 impl Content {
@@ -36,10 +41,12 @@ impl Content {
             | Content::Random { len, .. }
             | Content::Skewed { len, .. }
             | Content::Repeats { len, .. }
+            | Content::Range { len, .. }
             | Content::Periodic { len, .. } => *len,
             Content::Concat(v) => v.iter().map(|c| c.len()).sum(),
             Content::Planted { base, .. } => base.len(),
             Content::Tile { len, .. } => *len,
+            Content::Holes { base, .. } => base.len(),
         }
     }
 
@@ -135,6 +142,27 @@ impl Content {
                     c.gen_into(out);
                 }
             }
+            Content::Range { lo, n, len, seed } => {
+                let mut r = Rng::new(*seed);
+                let n = (*n).clamp(1, 256) as u64;
+                for _ in 0..*len {
+                    out.push(lo.wrapping_add(r.below(n) as u8));
+                }
+            }
+            Content::Holes { base, every, bytes } => {
+                let start = out.len();
+                base.gen_into(out);
+                let e = (*every).max(1);
+                if !bytes.is_empty() {
+                    let mut k = 0usize;
+                    let mut i = start + e - 1;
+                    while i < out.len() {
+                        out[i] = bytes[k % bytes.len()];
+                        k += 1;
+                        i += e;
+                    }
+                }
+            }
             Content::Tile { base, len } => {
                 let unit = base.generate();
                 if unit.is_empty() {
@@ -202,7 +230,8 @@ impl Content {
             Content::Repeats { seed, unit, far, .. } => Content::Repeats { len: nl, seed: *seed, unit: *unit, far: *far },
             Content::Periodic { period, seed, .. } => Content::Periodic { period: *period, len: nl, seed: *seed },
             Content::Tile { base, .. } => Content::Tile { base: base.clone(), len: nl },
-            Content::Concat(_) | Content::Planted { .. } => return None,
+            Content::Range { lo, n, seed, .. } => Content::Range { lo: *lo, n: *n, len: nl, seed: *seed },
+            Content::Concat(_) | Content::Planted { .. } | Content::Holes { .. } => return None,
         })
     }
 }
